@@ -34,6 +34,11 @@ func main() {
 			bodies[g] = func() { f.run(r, g, sh, nsh) }
 		}
 	}
+	if !r.ObsMode() {
+		// free-running -race pass: concurrent callers sharing read-only operands (all fields at once)
+		names = append(names, "race")
+		bodies["race"] = func() { r.RunRacePass("C01") }
+	}
 	r.Parallel(names, func(g string) { bodies[g]() })
 	// 31-bit fields: the whole unary domain (thorough) or a 2^-7 stride of it (quick);
 	// each call uses all cores itself, so these run one after the other.
